@@ -213,6 +213,18 @@ def parseLines (its : List String) (nl : List Char) (nb : Nat) : Option (List It
           let ts := if nb % 2 = 0 then (vocabIf false).dropLast else (vocabEndif false).dropLast
           pure (.text ind :: .tag ⟨.lineStmt ts, .none, .none⟩ :: .text (trail ++ thisNl) :: xs)
         | _ => none
+      | 'M' :: h =>
+        -- the opening statement continues behind a line break inside brackets: `if (t<nl>  )`
+        match (String.ofList h).splitOn "." with
+        | [a, b] => do
+          let ind ← unhex a
+          let trail ← unhex b
+          let xs ← go rest (nb + 1)
+          let ts : List Tok := if nb % 2 = 0 then
+              [.ws [' '], .ident ['i', 'f'], .ws [' '], .op '(', .ident ['t'], .ws (nl ++ [' ', ' ']), .op ')']
+            else (vocabEndif false).dropLast
+          pure (.text ind :: .tag ⟨.lineStmt ts, .none, .none⟩ :: .text (trail ++ thisNl) :: xs)
+        | _ => none
       | 'K' :: h =>
         match (String.ofList h).splitOn "." with
         | [a, b] => do
@@ -344,6 +356,19 @@ def handle (line : String) : String :=
         | _, _ => ""
       s!"{case}\tres={String.ofList res}\tll={String.ofList ((kacWords n).flatMap (fun h => showFound (findLL d pre.reverse h)))}{real}"
     | _, _, _ => s!"{case}\tbad-case"
+  | ["kid", shex] =>
+    -- the identifier scan of the model: characters of the ASCII identifier the string starts with, and
+    -- whether the scan stops at a non-ASCII character (where the model answers `unsupported`)
+    match unhex shex with
+    | some s =>
+      let rec go : List Char → Bool → Nat → Nat × Bool
+        | [], _, n => (n, false)
+        | c :: r, first, n =>
+          if (if first then isIdentStart c else isIdentCont c) then go r false (n + 1)
+          else (n, decide (c.toNat ≥ 128))
+      let (n, na) := go s true 0
+      s!"{case}\tlen={n}\tnonascii={if na then 1 else 0}"
+    | none => s!"{case}\tbad-case"
   | ["itok", fam, kind, shex] =>
     -- the tokens inside a tag: what `scanPieces` records behind the start delimiter (and its marker)
     match parseFam fam, unhex shex with
